@@ -91,6 +91,7 @@ type Stream struct {
 	// Read data above the sinceTs. All keys with version =< sinceTs will be ignored.
 	SinceTs      uint64
 	readTs       uint64
+	snapshot     *Txn // non-managed mode: the transaction whose timestamp all producers read at
 	db           *DB
 	rangeCh      chan keyRange
 	kvChan       chan *z.Buffer
@@ -176,9 +177,16 @@ func (st *Stream) produceKVs(ctx context.Context, threadId int) error {
 
 	y.VerifPoint("stream.producer.start")
 	var txn *Txn
-	if st.readTs > 0 {
+	switch {
+	case st.readTs > 0:
 		txn = st.db.NewTransactionAt(st.readTs, false)
-	} else {
+	case st.snapshot != nil:
+		// Read at the timestamp Orchestrate picked, so that all producers see the same snapshot.
+		// Orchestrate's transaction holds the read mark.
+		txn = st.db.newTransaction(false, true)
+		txn.readTs = st.snapshot.readTs
+		txn.doneRead = true
+	default:
 		txn = st.db.NewTransaction(false)
 	}
 	defer txn.Discard()
@@ -425,6 +433,17 @@ func (st *Stream) Orchestrate(ctx context.Context) error {
 
 	if st.KeyToList == nil {
 		st.KeyToList = st.ToList
+	}
+
+	// Without an explicit read timestamp every producer used to open its own transaction, so
+	// commits landing between two of them made the ranges come from different snapshots. Pick
+	// the snapshot once and keep it alive for the whole run.
+	if st.readTs == 0 && !st.db.opt.managedTxns {
+		st.snapshot = st.db.NewTransaction(false)
+		defer func() {
+			st.snapshot.Discard()
+			st.snapshot = nil
+		}()
 	}
 
 	// Picks up ranges from Badger, and sends them to rangeCh.
